@@ -137,6 +137,9 @@ pub fn named_4() -> Vec<(&'static str, Graph)> {
         ("fan-out", Graph::from_edges(4, &[(0, 1), (0, 2), (0, 3)])),
         ("2cycle+bystander", Graph::from_edges(4, &[(0, 1), (1, 0), (2, 0)])),
         ("selfloop+chain", Graph::from_edges(4, &[(0, 1), (1, 2), (2, 2)])),
+        // a triangle with a tail: the shared dependency has a dependency of its own
+        ("triangle+tail", Graph::from_edges(4, &[(0, 1), (0, 2), (1, 2), (2, 3)])),
+        ("transitive", Graph::from_edges(4, &[(0, 1), (0, 2), (0, 3), (1, 2), (2, 3)])),
     ]
 }
 
@@ -163,6 +166,8 @@ pub enum Pre {
     Absent,
     Stale,
     Built,
+    /// every output path is a symbolic link to a stale file in another directory (txtpp writes through it)
+    StaleLink,
 }
 
 #[derive(Clone, Debug)]
@@ -344,6 +349,7 @@ impl Case {
         let pre = match v["pre"].as_str().unwrap_or("") {
             "Absent" => Pre::Absent,
             "Built" => Pre::Built,
+            "StaleLink" => Pre::StaleLink,
             _ => Pre::Stale,
         };
         Case {
@@ -424,6 +430,13 @@ impl CaseEnv {
             match case.pre {
                 Pre::Absent => {}
                 Pre::Stale => std::fs::write(base.join(out_name(i)), format!("STALE-{}\n", NAMES[i])).unwrap(),
+                Pre::StaleLink => {
+                    std::fs::create_dir_all(base.join("store")).unwrap();
+                    let real = base.join(format!("store/{}.data", NAMES[i]));
+                    std::fs::write(&real, format!("STALE-{}\n", NAMES[i])).unwrap();
+                    let _ = std::fs::remove_file(base.join(out_name(i)));
+                    std::os::unix::fs::symlink(&real, base.join(out_name(i))).unwrap();
+                }
                 Pre::Built => {
                     if let Some(o) = case.proj.oracle(i) {
                         std::fs::write(base.join(out_name(i)), o).unwrap()
@@ -841,6 +854,13 @@ pub fn plan(prop: &str, thorough: bool) -> Vec<Case> {
             for g in graphs.iter().filter(|g| g.acyclic() && g.n == 3 && !g.edges().is_empty()) {
                 cases.extend(layout_cases(g, Style::Include));
                 cases.extend(layout_cases(g, Style::After));
+            }
+            // every output path is a symbolic link into another directory
+            for g in graphs.iter().filter(|g| g.acyclic() && !g.edges().is_empty() && g.n <= 3) {
+                for style in [Style::Include, Style::After] {
+                    let proj = Proj { g: *g, style, layout: false, err: None };
+                    cases.extend(sel_cases(&proj, &[Pre::StaleLink], &[Mode::Build, Mode::InMemoryBuild], true));
+                }
             }
             if thorough {
                 // five files: every isomorphism class of DAGs, directory input and the first file by name
